@@ -93,10 +93,12 @@ def run_shard(spec, rep):
             g = Permeance(value=v, units=Units.SI).convert(Units.GPU).value
             rep.check("SI->GPU without component", abs(g - v / 3.35e-10), 4 * EPS * v / 3.35e-10, case)
             # must raise
-            for a, b in ((Units.SI, Units.kg_m2_h_kPa), (Units.GPU, Units.kg_m2_h_kPa), (Units.kg_m2_h_kPa, Units.SI), (Units.kg_m2_h_kPa, Units.GPU)):
-                _must_raise(rep, "needs a component, given none: raises", lambda: Permeance(value=v + 1.0, units=a).convert(b), dict(case, frm=a, to=b))
-            for a, b in ((Units.SI, "bar"), ("bar", Units.SI), (Units.kg_m2_h_kPa, "mol/m2"), ("furlong", Units.GPU)):
-                _must_raise(rep, "unknown unit: raises", lambda: Permeance(value=v + 1.0, units=a).convert(b, comp), dict(case, frm=a, to=b))
+            for val in (v + 1.0, v, 0.0, -1.0):  # also the value 0 (and a negative clipped to 0): no shortcut may skip the checks
+                for a, b in ((Units.SI, Units.kg_m2_h_kPa), (Units.GPU, Units.kg_m2_h_kPa), (Units.kg_m2_h_kPa, Units.SI), (Units.kg_m2_h_kPa, Units.GPU)):
+                    _must_raise(rep, "needs a component, given none: raises", lambda: Permeance(value=val, units=a).convert(b), dict(case, frm=a, to=b, value=val))
+                for a, b in ((Units.SI, "bar"), ("bar", Units.SI), (Units.kg_m2_h_kPa, "mol/m2"), ("furlong", Units.GPU), ("barrer", "Barrer2")):
+                    _must_raise(rep, "unknown unit: raises", lambda: Permeance(value=val, units=a).convert(b, comp), dict(case, frm=a, to=b, value=val))
+                    _must_raise(rep, "unknown unit: raises", lambda: Permeance(value=val, units=a).convert(b), dict(case, frm=a, to=b, value=val, component=None))
             # never negative
             for neg in (-v - 1e-9, -1e-300, float("-inf")):
                 rep.require("negative input never yields a negative value", Permeance(value=neg).value >= 0, case, {"input": repr(neg)})
